@@ -3,6 +3,8 @@
 package harness
 
 import (
+	"crypto/ecdsa"
+	"encoding/hex"
 	"fmt"
 	"math/big"
 	"os"
@@ -12,7 +14,9 @@ import (
 	"time"
 
 	sdkmath "cosmossdk.io/math"
+	codectypes "github.com/cosmos/cosmos-sdk/codec/types"
 	sdk "github.com/cosmos/cosmos-sdk/types"
+	"github.com/ethereum/go-ethereum/crypto"
 	skykeeper "github.com/palomachain/paloma/v2/x/skyway/keeper"
 	skytypes "github.com/palomachain/paloma/v2/x/skyway/types"
 )
@@ -38,8 +42,43 @@ type brHarness struct {
 	minted  map[int]*big.Int
 	burnt   map[int]*big.Int
 	ops     []string // current case's op lines (for replay files)
+	ckpts    []brCkpt            // every checkpoint ever observed as a batch's signing bytes
+	ckptSeen map[string]bool
 	deposits map[uint64][2]int64 // skyway nonce -> (token, amount) for deposit claims with a registered token
 	seenObserved uint64
+}
+
+type brCkpt struct {
+	tok, nonce int
+	est        uint64
+	ext        skytypes.OutgoingTxBatch
+}
+
+// recordCheckpoints remembers the signing bytes of every open batch (what the chain currently
+// asks validators to sign), so that genuine confirmations can be replayed as evidence later.
+func (b *brHarness) recordCheckpoints() {
+	for _, bb := range b.e.batchList() {
+		key := fmt.Sprintf("%d/%d/%d", bb.tok, bb.nonce, bb.est)
+		if b.ckptSeen[key] {
+			continue
+		}
+		b.ckptSeen[key] = true
+		b.ckpts = append(b.ckpts, brCkpt{bb.tok, bb.nonce, bb.est, bb.raw.ToExternal()})
+	}
+}
+
+func (b *brHarness) jailedList() string {
+	var js []string
+	for i, v := range skykeeper.ValAddrs {
+		val, err := b.e.in.StakingKeeper.Validator(b.e.ctx, v)
+		if err == nil && val.IsJailed() {
+			js = append(js, fmt.Sprint(i+1))
+		}
+	}
+	if len(js) == 0 {
+		return "-"
+	}
+	return strings.Join(js, ",")
 }
 
 func (b *brHarness) state() string {
@@ -255,7 +294,7 @@ func TestBridge(t *testing.T) {
 func runBridgeCase(t *testing.T, r *Rec, prop string, nops int) {
 	e := newSkyEnv(t, 3)
 	b := &brHarness{r: r, e: e, nTok: 2, accepted: map[int]obsTx{}, refunded: map[int]bool{}, burned: map[int]bool{},
-		deposits: map[uint64][2]int64{}, pendEst: map[[2]int]uint64{}, fundedSupply: map[int]*big.Int{}, minted: map[int]*big.Int{}, burnt: map[int]*big.Int{}}
+		ckptSeen: map[string]bool{}, deposits: map[uint64][2]int64{}, pendEst: map[[2]int]uint64{}, fundedSupply: map[int]*big.Int{}, minted: map[int]*big.Int{}, burnt: map[int]*big.Int{}}
 	e.addToken("utok1", "0x1000000000000000000000000000000000000001")
 	e.addToken("utok2", "0x1000000000000000000000000000000000000002")
 	for tk := 1; tk <= b.nTok; tk++ {
@@ -277,9 +316,18 @@ func runBridgeCase(t *testing.T, r *Rec, prop string, nops int) {
 	if prop == "C15" {
 		weightTax = 18
 	}
+	weightEv := 0
+	if prop == "C13" {
+		weightTax, weightEv = 2, 22
+	}
 	nonTrivial := false
 	for i := 0; i < nops; i++ {
 		x := r.Rng.Intn(100)
+		b.recordCheckpoints()
+		if weightEv > 0 && r.Rng.Intn(100) < weightEv && len(b.ckpts) > 0 {
+			b.evidenceOp()
+			continue
+		}
 		switch {
 		case x < weightTax: // governance: tax
 			tk := 1 + r.Rng.Intn(2)
@@ -618,3 +666,62 @@ func runBridgeCase(t *testing.T, r *Rec, prop string, nops int) {
 }
 
 func (b *brHarness) monitorNoSupply(op string) { b.monitor(op) }
+
+// evidenceOp: somebody replays a validator's signature as bad-signature evidence — over a
+// checkpoint the chain really issued (must never jail), over a forged variant of a batch
+// (jails the signer), or signed by a key no validator registered (refused).
+func (b *brHarness) evidenceOp() {
+	r, e := b.r, b.e
+	ck := b.ckpts[r.Rng.Intn(len(b.ckpts))]
+	ext := ck.ext
+	variant := 0
+	switch r.Rng.Intn(4) {
+	case 0: // forged: different timeout
+		ext.BatchTimeout += uint64(1 + r.Rng.Intn(5))
+		variant = 1 + int(ext.BatchTimeout%1000)
+	case 1: // forged: different gas estimate than any issued one
+		ext.GasEstimate += 7777
+		variant = 2000
+	}
+	signer := r.Rng.Intn(len(skykeeper.ValAddrs))
+	var key *ecdsa.PrivateKey = skykeeper.EthPrivKeys[signer]
+	signerS := fmt.Sprint(signer + 1)
+	if r.Rng.Intn(6) == 0 {
+		key, _ = crypto.ToECDSA(crypto.Keccak256([]byte(fmt.Sprint("stranger", r.Rng.Int()))))
+		signerS = "0"
+	}
+	ci, err := e.in.EvmKeeper.GetChainInfo(e.ctx, skyChain)
+	if err != nil {
+		r.t.Fatal(err)
+	}
+	ext.ChainReferenceId = skyChain
+	checkpoint, err := ext.GetCheckpoint(string(ci.SmartContractUniqueID))
+	if err != nil {
+		r.t.Fatal(err)
+	}
+	sig, err := skytypes.NewEthereumSignature(checkpoint, key)
+	if err != nil {
+		r.t.Fatal(err)
+	}
+	any, err := codectypes.NewAnyWithValue(&ext)
+	if err != nil {
+		r.t.Fatal(err)
+	}
+	jailedBefore := b.jailedList()
+	b.e.fault.Reset("", 0)
+	res := e.runMsg(func(ctx sdk.Context) error {
+		_, err := e.ms.SubmitBadSignatureEvidence(ctx, &skytypes.MsgSubmitBadSignatureEvidence{Subject: any, Signature: hex.EncodeToString(sig), ChainReferenceId: skyChain, Metadata: e.meta(e.users[0])})
+		return err
+	})
+	op := fmt.Sprintf("evidence %d %d %d %d %s", ck.tok, ck.nonce, ext.GasEstimate, variant, signerS)
+	jailedAfter := b.jailedList()
+	if variant == 0 && jailedAfter != jailedBefore {
+		r.Hit("genuine_confirmation_safe", fmt.Sprintf("a signature over the issued checkpoint of batch %d/%d (estimate %d) jailed validator(s) %s", ck.tok, ck.nonce, ck.est, jailedAfter), b.replay())
+	}
+	if variant == 0 {
+		r.Stat("evidence.genuine." + res)
+	} else {
+		r.Stat("evidence.forged." + res)
+	}
+	b.emit(op, res+" jailed="+jailedAfter)
+}
